@@ -359,8 +359,49 @@ def search_loop(ctx, fi, action):
     return sr
 
 
+def per_key_reset(repo, setup, attr='groups'):
+    """`self.<attr>` kept on the object and emptied KEY BY KEY by setup: `for k in <the model's cliques>: self.<attr>[k] = []` before anything
+    is attached.  Entries of earlier calls under other keys stay behind, which is harmless only if nothing ever walks the whole container.
+    -> None (no such loop), or (ok, explanation, loop node)"""
+    loops = [s_ for s_ in setup.body if isinstance(s_, ast.For) and len(s_.body) == 1 and isinstance(s_.body[0], ast.Assign)
+             and len(s_.body[0].targets) == 1 and isinstance(s_.body[0].targets[0], ast.Subscript)
+             and U(s_.body[0].targets[0].value) == 'self.' + attr and U(s_.body[0].targets[0].slice) == U(s_.target)
+             and U(s_.body[0].value).replace(' ', '') in ('[]', 'list()')]
+    if not loops:
+        return None
+    lp = loops[0]
+    seq = normalise_seq(setup, lp.iter, setup)
+    import re
+    m = re.fullmatch(r'(?:sorted|list|tuple)\((.*?)(?:,key=.*)?\)', seq)
+    core = m.group(1) if m else seq
+    if core != 'self.model.cliques':
+        return (False, 'the keys that are emptied are `%s`, not the cliques of the model the measurements are then attached to (self.model.cliques): a '
+                       'model clique that is not among them keeps the measurements of the previous call' % seq, lp)
+    cls = setup.cls.name if setup.cls is not None else None
+    for q, other in setup.module.funcs.items():
+        if other.cls is None or other.cls.name != cls:
+            continue
+        for n in ast.walk(other.node):
+            whole = None
+            if isinstance(n, (ast.For, ast.comprehension)) and U(n.iter).replace(' ', '') in ('self.' + attr, 'self.%s.items()' % attr, 'self.%s.values()' % attr,
+                                                                                              'self.%s.keys()' % attr):
+                whole = n
+            if isinstance(n, ast.Call) and U(n.func) in ('len', 'list', 'sum', 'dict') and n.args and U(n.args[0]).startswith('self.' + attr) \
+                    and '[' not in U(n.args[0]):
+                whole = n
+            if whole is not None:
+                return (False, '`%s` in %s walks the whole container, which also holds the entries of earlier calls' % (U(whole)[:60], q), lp)
+    return (True, 'every clique of the current model is emptied before measurements are attached; entries under other keys are never read', lp)
+
+
 def check_groups_reset(ctx, setup, s1):
     """the per-clique groups are rebuilt from empty on every setup, before the first measurement is attached"""
+    pk = per_key_reset(ctx.repo, setup)
+    if pk is not None and not any(isinstance(s, ast.Assign) and any(U(t) == 'self.groups' for t in s.targets) for s in setup.body):
+        ok, why, lp = pk
+        ok = ok and setup.body.index(lp) < (setup.body.index(s1['outer']) if s1['outer'] in setup.body else 10 ** 9)
+        ctx.ob('exactly-once', setup, lp, ok, 'the groups are emptied key by key: %s' % why, construct='per-key reset of self.groups in ' + setup.name)
+        return
     resets = [s for s in setup.body if isinstance(s, ast.Assign) and any(U(t) == 'self.groups' for t in s.targets)]
     ok = False
     where = setup.node
